@@ -291,7 +291,7 @@ def run(ctx):
     from .. import pipeline
 
     # wiring: the run's stored columns are this stage applied to the run's stored columns (see nssmc/pipeline.py)
-    pipeline.run_in(ctx, ['optical'], ('B', 'C'))
+    pipeline.run_in(ctx, ['optical'], ('B', 'C'), plots=['eas_optical_density', 'eas_optical_histogram'])
     tier = ctx.tier
     for order in ([525.0, 33.0, 1000.0, 36000.0], [33.0, 525.0], [36000.0, 400.0, 525.0]):
         ctx.tick(3 * len(order), ("wrapper_real", tuple(order)))
